@@ -17,25 +17,14 @@ private theorem ite_false_chain {c : Prop} [Decidable c] {b : Bool} (h : (if c t
   · rw [if_neg hc] at h; exact ⟨hc, h⟩
 
 theorem config_leaves :
-    Gen.txConfigAccepted_leaves = ["len(config.Name) : Int", "config.NumChunks : Int", "numChunksLowerBound : Int", "numChunksUpperBound : Int",
-      "config.NumBytesPerSenderThreshold : Int", "maxNumBytesPerSenderLowerBound : Int", "maxNumBytesPerSenderUpperBound : Int",
-      "config.CountPerSenderThreshold : Int", "maxNumItemsPerSenderLowerBound : Int", "config.NumBytesThreshold : Int",
-      "maxNumBytesLowerBound : Int", "maxNumBytesUpperBound : Int", "config.CountThreshold : Int", "maxNumItemsLowerBound : Int",
-      "config.NumItemsToPreemptivelyEvict : Int", "numItemsToPreemptivelyEvictLowerBound : Int"] ∧
-    Gen.immunityConfigAccepted_leaves = ["len(config.Name) : Int", "config.NumChunks : Int", "numChunksLowerBound : Int", "numChunksUpperBound : Int",
-      "config.MaxNumItems : Int", "maxNumItemsLowerBound : Int", "config.MaxNumBytes : Int", "maxNumBytesLowerBound : Int",
-      "maxNumBytesUpperBound : Int", "config.NumItemsToPreemptivelyEvict : Int", "numItemsToPreemptivelyEvictLowerBound : Int"] ∧
+    Gen.txConfigAccepted_leaves = ["config.CountPerSenderThreshold : Int", "config.CountThreshold : Int", "config.NumBytesPerSenderThreshold : Int", "config.NumBytesThreshold : Int", "config.NumChunks : Int", "config.NumItemsToPreemptivelyEvict : Int", "len(config.Name) : Int", "maxNumBytesLowerBound : Int", "maxNumBytesPerSenderLowerBound : Int", "maxNumBytesPerSenderUpperBound : Int", "maxNumBytesUpperBound : Int", "maxNumItemsLowerBound : Int", "maxNumItemsPerSenderLowerBound : Int", "numChunksLowerBound : Int", "numChunksUpperBound : Int", "numItemsToPreemptivelyEvictLowerBound : Int"] ∧
+    Gen.immunityConfigAccepted_leaves = ["config.MaxNumBytes : Int", "config.MaxNumItems : Int", "config.NumChunks : Int", "config.NumItemsToPreemptivelyEvict : Int", "len(config.Name) : Int", "maxNumBytesLowerBound : Int", "maxNumBytesUpperBound : Int", "maxNumItemsLowerBound : Int", "numChunksLowerBound : Int", "numChunksUpperBound : Int", "numItemsToPreemptivelyEvictLowerBound : Int"] ∧
     Gen.crossConfigAccepted_leaves = Gen.immunityConfigAccepted_leaves ∧
-    Gen.unitConfRejected_leaves = ["dbConf.MaxBatchSize : Int", "cacheConf.Capacity : Int"] := ⟨rfl, rfl, rfl, rfl⟩
+    Gen.unitConfRejected_leaves = ["cacheConf.Capacity : Int", "dbConf.MaxBatchSize : Int"] := ⟨rfl, rfl, rfl, rfl⟩
 
 /-- `NewTxCache` accepts the configuration (name of length `nameLen`, `numChunks` chunks, thresholds as in the model's `Config`) -/
 def txAccepted (cfg : TxCache.Config) (nameLen numChunks : Nat) : Bool :=
-  Gen.txConfigAccepted nameLen numChunks Facts.txNumChunksLowerBound Facts.txNumChunksUpperBound
-    cfg.numBytesPerSender Facts.txMaxNumBytesPerSenderLowerBound Facts.txMaxNumBytesPerSenderUpperBound
-    cfg.countPerSender Facts.txMaxNumItemsPerSenderLowerBound
-    cfg.numBytesThreshold Facts.txMaxNumBytesLowerBound Facts.txMaxNumBytesUpperBound
-    cfg.countThreshold Facts.txMaxNumItemsLowerBound
-    cfg.numItemsToEvict Facts.txNumItemsToPreemptivelyEvictLowerBound
+  Gen.txConfigAccepted (len_config_Name := nameLen) (config_NumChunks := numChunks) (numChunksLowerBound := Facts.txNumChunksLowerBound) (numChunksUpperBound := Facts.txNumChunksUpperBound) (config_NumBytesPerSenderThreshold := cfg.numBytesPerSender) (maxNumBytesPerSenderLowerBound := Facts.txMaxNumBytesPerSenderLowerBound) (maxNumBytesPerSenderUpperBound := Facts.txMaxNumBytesPerSenderUpperBound) (config_CountPerSenderThreshold := cfg.countPerSender) (maxNumItemsPerSenderLowerBound := Facts.txMaxNumItemsPerSenderLowerBound) (config_NumBytesThreshold := cfg.numBytesThreshold) (maxNumBytesLowerBound := Facts.txMaxNumBytesLowerBound) (maxNumBytesUpperBound := Facts.txMaxNumBytesUpperBound) (config_CountThreshold := cfg.countThreshold) (maxNumItemsLowerBound := Facts.txMaxNumItemsLowerBound) (config_NumItemsToPreemptivelyEvict := cfg.numItemsToEvict) (numItemsToPreemptivelyEvictLowerBound := Facts.txNumItemsToPreemptivelyEvictLowerBound)
 
 /-- every configuration accepted by `NewTxCache` meets the side conditions of the mempool theorems -/
 theorem txAccepted_bounds (cfg : TxCache.Config) (nameLen numChunks : Nat) (h : txAccepted cfg nameLen numChunks = true) :
@@ -69,9 +58,7 @@ example : txAccepted ⟨true, 4, 1, 3, 1, 1⟩ 1 1 = false := by decide
 
 /-- `NewImmunityCache` (and `NewCrossTxCache`, whose validator is the same test) accepts the configuration -/
 def immunityAccepted (cfg : Immunity.Config) (nameLen : Nat) : Bool :=
-  Gen.immunityConfigAccepted nameLen cfg.numChunks Facts.imNumChunksLowerBound Facts.imNumChunksUpperBound
-    cfg.maxNumItems Facts.imMaxNumItemsLowerBound cfg.maxNumBytes Facts.imMaxNumBytesLowerBound Facts.imMaxNumBytesUpperBound
-    cfg.numItemsToEvict Facts.imNumItemsToPreemptivelyEvictLowerBound
+  Gen.immunityConfigAccepted (len_config_Name := nameLen) (config_NumChunks := cfg.numChunks) (numChunksLowerBound := Facts.imNumChunksLowerBound) (numChunksUpperBound := Facts.imNumChunksUpperBound) (config_MaxNumItems := cfg.maxNumItems) (maxNumItemsLowerBound := Facts.imMaxNumItemsLowerBound) (config_MaxNumBytes := cfg.maxNumBytes) (maxNumBytesLowerBound := Facts.imMaxNumBytesLowerBound) (maxNumBytesUpperBound := Facts.imMaxNumBytesUpperBound) (config_NumItemsToPreemptivelyEvict := cfg.numItemsToEvict) (numItemsToPreemptivelyEvictLowerBound := Facts.imNumItemsToPreemptivelyEvictLowerBound)
 
 theorem immunityAccepted_bounds (cfg : Immunity.Config) (nameLen : Nat) (h : immunityAccepted cfg nameLen = true) :
     1 ≤ nameLen ∧ 1 ≤ cfg.numChunks ∧ cfg.numChunks ≤ 128 ∧ 4 ≤ cfg.maxNumItems ∧
@@ -98,7 +85,7 @@ example : immunityAccepted ⟨1, 4, 4, 1⟩ 1 = true := by decide
 example : immunityAccepted ⟨129, 4, 4, 1⟩ 1 = false := by decide
 
 /-- the factory refuses a storage unit whose persister batch is larger than its cache: accepted ⇒ MaxBatchSize ≤ Capacity -/
-theorem unitConf_accepted (maxBatch capacity : Nat) (h : Gen.unitConfRejected maxBatch capacity = false) : maxBatch ≤ capacity := by
+theorem unitConf_accepted (maxBatch capacity : Nat) (h : Gen.unitConfRejected (dbConf_MaxBatchSize := maxBatch) (cacheConf_Capacity := capacity) = false) : maxBatch ≤ capacity := by
   unfold Gen.unitConfRejected at h
   simp only [decide_eq_false_iff_not, Int.not_lt] at h
   omega
